@@ -42,6 +42,15 @@ void Script::Load() {
     else if (key == "interm") ss >> n_interm;
     else if (key == "raise") ss >> raise_at;
     else if (key == "poll") ss >> poll_stop;
+    else if (key == "hist") {        // hist <pre|post> <kind> | vars v.. | cons <g> v.. | cons <g> v..
+      Xfer x; ss >> x.dir >> x.kind;
+      std::string t; std::vector<double> *cur = nullptr;
+      while (ss >> t) {
+        if (t == "|") { std::string w; ss >> w; if (w == "vars") cur = &x.vars; else { int g; ss >> g; cur = &x.cons[g]; } }
+        else if (cur) cur->push_back(atof(t.c_str()));
+      }
+      hist.push_back(x);
+    }
   }
 }
 
@@ -196,8 +205,45 @@ IIS ScriptedBackend::GetIIS() {
   return {mv.GetVarValues()(), mv.GetConValues()()};
 }
 
+template <class T> static std::vector<T> conv(const std::vector<double> &v) { return std::vector<T>(v.begin(), v.end()); }
+template <class T> static std::map<int, std::vector<T>> convm(const std::map<int, std::vector<double>> &m) {
+  std::map<int, std::vector<T>> r; for (auto &kv : m) r[kv.first] = conv<T>(kv.second); return r;
+}
+
+/// Perform the scripted history of direct pre-/postsolve calls and log every result
+void ScriptedBackend::RunHistory() {
+  auto f = lp()->rec;
+  int n = 0;
+  for (const auto &x : script_.hist) {
+    ++n;
+    bool pre = x.dir == "pre";
+    std::string vars, cons;
+    auto &vp = GetValuePresolver();
+    auto dbl_in = [&]() { return pre ? pre::ModelValuesDbl{x.vars, x.cons.count(0) ? x.cons.at(0) : std::vector<double>{}}
+                                     : pre::ModelValuesDbl{x.vars, pre::ValueMapDbl{x.cons}}; };
+    auto int_in = [&]() { return pre ? pre::ModelValuesInt{conv<int>(x.vars), x.cons.count(0) ? conv<int>(x.cons.at(0)) : std::vector<int>{}}
+                                     : pre::ModelValuesInt{conv<int>(x.vars), pre::ValueMapInt{convm<int>(x.cons)}}; };
+    auto out_dbl = [&](const pre::ModelValuesDbl &mv) { vars = verif::jdbls(mv.GetVarValues()()); cons = MapJSON(mv.GetConValues()); };
+    auto out_int = [&](const pre::ModelValuesInt &mv) { vars = verif::jints(mv.GetVarValues()()); cons = MapJSON(mv.GetConValues()); };
+    try {
+      if (x.kind == "sol") out_dbl(pre ? vp.PresolveSolution(dbl_in()) : vp.PostsolveSolution(dbl_in()));
+      else if (x.kind == "gdbl") out_dbl(pre ? vp.PresolveGenericDbl(dbl_in()) : vp.PostsolveGenericDbl(dbl_in()));
+      else if (x.kind == "basis") out_int(pre ? vp.PresolveBasis(int_in()) : vp.PostsolveBasis(int_in()));
+      else if (x.kind == "iis") out_int(pre ? vp.PresolveIIS(int_in()) : vp.PostsolveIIS(int_in()));
+      else if (x.kind == "lazy") out_int(pre ? vp.PresolveLazyUserCutFlags(int_in()) : vp.PostsolveLazyUserCutFlags(int_in()));
+      else if (x.kind == "gint") out_int(pre ? vp.PresolveGenericInt(int_in()) : vp.PostsolveGenericInt(int_in()));
+      else continue;
+      if (f) fprintf(f, "{\"e\":\"Xfer\",\"i\":%d,\"dir\":\"%s\",\"kind\":\"%s\",\"vars\":%s,\"cons\":%s}\n", n, x.dir.c_str(), x.kind.c_str(), vars.c_str(), cons.c_str());
+    } catch (const std::exception &ex) {
+      if (f) fprintf(f, "{\"e\":\"Xfer\",\"i\":%d,\"dir\":\"%s\",\"kind\":\"%s\",\"throw\":%s}\n", n, x.dir.c_str(), x.kind.c_str(), verif::jstr(ex.what()).c_str());
+    }
+    if (f) fflush(f);
+  }
+}
+
 void ScriptedBackend::ReportResults() {
   Ev("ReportResults");
+  RunHistory();
   if (script_.raise_at == 2) MP_RAISE("scripted failure in ReportResults");
   SetStatus({script_.status, script_.status_msg});
   if (auto f = lp()->rec) {   // observe the library's own classification of this code
